@@ -21,10 +21,13 @@ import os
 import random
 import subprocess
 import tempfile
+import time
 
 from harness import core
+from harness import c10hist
 
 PROP = 'C10'
+HISTORIES = {'quick': ['fresh', 'used'], 'thorough': ['fresh', 'fresh-b', 'used', 'used-b']}
 
 META = dict(
     text='Kernel-checked theorems over the model of BufrMessage.subset for every message shape (any number of sections, '
@@ -172,7 +175,11 @@ def msg_for_model(m, interner):
 def canon_input(m, data, interner):
     """Canonical form of what subset() returned, positions typed by the source message's parameters."""
     out = []
+    if not isinstance(data, list) or len(data) != len(m.sections):
+        return 'shape'
     for section, sd in zip(m.sections, data):
+        if not isinstance(sd, list) or len(sd) != len(list(section)):
+            return 'shape'
         row = []
         for p, v in zip(section, sd):
             if p.type == 'template_data':
@@ -377,8 +384,9 @@ def check_case(st, m, rows0, fields0, meta0, n, I):
     from pybufrkit.errors import PyBufrKitError
     problems = []
     info = {}
+    passed = list(I)
     try:
-        data = m.subset(list(I))
+        data = m.subset(passed)
     except Exception as e:
         tag = core.err_tag(e)
         if in_range(I, n) and I:
@@ -387,32 +395,45 @@ def check_case(st, m, rows0, fields0, meta0, n, I):
             problems.append(('refusal', 'out-of-range collection %r (n=%d) raised %s, not a PyBufrKitError' % (I[:12], n, type(e).__name__),
                              {'how': 'other-error'}))
         return tag, problems, info
+    if passed != list(I):
+        problems.append(('argument-modified', 'subset() changed the caller\'s index list %r into %r' % (list(I)[:12], passed[:12]), {}))
     if not in_range(I, n):
         problems.append(('refusal', 'out-of-range collection %r accepted for a %d-subset message' % (I[:12], n), {'how': 'accepted'}))
         return data, problems, info
     if not st.get('reencodable', True):
         return data, problems, info
+    encode_decode_compare(st, data, rows0, fields0, meta0, n, bool(m.is_compressed.value), I, problems, info)
+    return data, problems, info
+
+
+def encode_decode_compare(st, data, rows0, fields0, meta0, n, compressed, I, problems, info):
+    """The re-encode/decode half of the property for one encoder input `data` that subset(I) returned for a message with
+    the value lists rows0 (per-row field codings fields0) and parameters meta0: Decoder(Encoder(data)) holds exactly the rows
+    at the sorted distinct indices.  Appends to problems; returns (encoder's message, bytes, decoded message, its fields) or None."""
     sel = sorted(set(I))
     repeats = len(sel) != len(I)
     try:
-        nb = st['enc'].process(data, wire_template_data=False).serialized_bytes
+        em = st['enc'].process(data, wire_template_data=False)
+        nb = em.serialized_bytes
     except Exception as e:
         problems.append(('encode-raises', 'Encoder refused subset(%r) (n=%d, compressed=%s): %s' % (
-            I[:12], n, m.is_compressed.value, type(e).__name__), {'repeats': repeats, 'exc': type(e).__name__}))
-        return data, problems, info
+            I[:12], n, compressed, type(e).__name__), {'repeats': repeats, 'exc': type(e).__name__}))
+        return None
     try:
         m2, fields2 = st['dec'].decode_with_fields(nb)
     except Exception as e:
         problems.append(('decode-raises', 'result of subset(%r) (n=%d) does not decode: %s' % (I[:12], n, type(e).__name__),
                          {'repeats': repeats, 'exc': type(e).__name__,
-                          'allones_with_missing': bool(m.is_compressed.value) and allones_with_missing(rows0, fields0, sel)}))
-        return data, problems, info
+                          'allones_with_missing': bool(compressed) and allones_with_missing(rows0, fields0, sel)}))
+        return None
     info['reencoded'] = True
     if m2.n_subsets.value != len(sel):
         problems.append(('n_subsets', 'n_subsets=%r after subset(%r), %d distinct indices' % (m2.n_subsets.value, I[:12], len(sel)),
                          {'repeats': repeats}))
     rows2 = m2.template_data.value.decoded_values_all_subsets
-    if len(rows2) != len(sel):
+    if sel and sel[-1] >= len(rows0):
+        problems.append(('hypothesis', 'the message has n_subsets=%d but %d value lists (subset(%r))' % (n, len(rows0), I[:12]), {}))
+    elif len(rows2) != len(sel):
         problems.append(('values', '%d value lists after subset(%r), %d distinct indices' % (len(rows2), I[:12], len(sel)), {'repeats': repeats}))
     else:
         n_allones = n_pad = 0
@@ -445,7 +466,7 @@ def check_case(st, m, rows0, fields0, meta0, n, I):
     if meta2 != meta0:
         diff = [(a[0], a[1], b[1]) for a, b in zip(meta0, meta2) if a != b][:4]
         problems.append(('metadata', 'parameters changed by subset(%r): %r' % (I[:12], diff if len(meta0) == len(meta2) else 'different parameter lists'), {}))
-    return data, problems, info
+    return em, nb, m2, fields2
 
 
 SKIP_META = ('length', 'section_length', 'n_subsets')
@@ -506,8 +527,11 @@ def run_source(task):
         res['not_reencodable'] = type(e).__name__
     if render_hash(st, m) != before:
         raise core.MachineryError('rendering/encoding the source changed it: %r' % (src,))
+    only_hist = task.get('only_history')
     if 'only' in task:
         colls = [('replay', task['only'])]
+    elif only_hist and not only_hist['which'].startswith('used'):
+        colls = []
     else:
         colls = collections(core.rng_for(PROP, seed, 'idx:' + json.dumps(src, sort_keys=True)), n, tier)
     interner = Interner()
@@ -525,8 +549,34 @@ def run_source(task):
                              'allones': info.get('allones', 0)})
         for kind, text, extra in problems:
             res['problems'].append({'kind': kind, 'text': text, 'I': I, 'extra': extra})
+    # operation histories on one message object (a freshly decoded one; the one used above), see harness/c10hist.py
+    hists = []
+    res['histories'] = []
+    if 'only' not in task:
+        for which in ([only_hist['which']] if only_hist else HISTORIES[tier]):
+            if which.startswith('fresh'):
+                mh, fh = st['dec'].decode_with_fields(data)
+            else:
+                mh, fh = m, fields0
+            if only_hist:
+                ops = only_hist['ops']
+            else:
+                ops = c10hist.plan(core.rng_for(PROP, seed, 'hist:%s:%s' % (which, json.dumps(src, sort_keys=True))), n, tier)
+            h = c10hist.execute(st, mh, fh, ops, reencodable=st['reencodable'])
+            h['which'], h['ops'] = which, ops
+            hists.append(h)
     # the model on the same message and collections
-    out = core.Driver().batch([{'op': 'subset', 'msg': mm, 'idxs': [I for _, I in colls]}])[0]
+    outs = core.Driver().batch([{'op': 'subset', 'msg': mm, 'idxs': [I for _, I in colls]}] + [rq for h in hists for rq in h['requests']])
+    out = outs[0]
+    k = 1
+    for h in hists:
+        nreq = len(h['requests'])
+        h['problems'] += c10hist.compare_model(h['expect'], outs[k:k + nreq])
+        k += nreq
+        for kind, text, extra, at in h['problems']:
+            res['problems'].append({'kind': kind, 'text': 'history(%s) %s' % (h['which'], text), 'I': [], 'extra': extra,
+                                    'hist': {'which': h['which'], 'ops': h['ops'], 'at': at}})
+        res['histories'].append({'which': h['which'], 'stats': h['stats'], 'digest': c10hist.digest(h['ops'])[:400], 'nops': len(h['ops'])})
     if out['n'] != n:
         res['problems'].append({'kind': 'correspondence', 'text': 'model reads n_subsets=%r, implementation %r' % (out['n'], n), 'I': [], 'extra': {}})
     if not out.get('wf'):
@@ -657,9 +707,21 @@ def report(ctx, res):
         ctx.case({'src': name, 'I': c['I']}, nontrivial=nontrivial, sample=(ctx.evaluations % 211 == 0))
         if c['allones']:
             ctx.count('values identified all-ones == missing', c['allones'])
+    for h in res.get('histories', []):
+        stt = h['stats']
+        ctx.count('histories')
+        ctx.count('history ops', h['nops'])
+        for key, v in sorted(stt.items()):
+            if v and key not in ('objects',):
+                ctx.count('hist ' + key, v)
+        ctx.traces += stt.get('results compared with the model', 0)
+        nontrivial = stt.get('encode after a later subset()', 0) >= 1 and stt.get('subset', 0) >= 3
+        ctx.case({'src': name, 'history': h['which'], 'ops': h['digest']}, nontrivial=nontrivial, sample=(ctx.evaluations % 97 == 0))
     for p in res['problems']:
         sig = dict(p['extra'], kind=p['kind'])
         replay = {'src': src, 'I': p['I'], 'kind': p['kind'], 'n': res['n'], 'compressed': res['compressed']}
+        if p.get('hist'):
+            replay['history'] = p['hist']
         ctx.violation('%s [%s, n=%d, %s]: %s' % (p['kind'], name, res['n'], 'compressed' if res['compressed'] else 'uncompressed', p['text']),
                       replay, signature=sig)
 
@@ -677,7 +739,8 @@ def shrink(ctx, res):
         I = list(p['I'])
         changed = True
         budget = 40
-        while changed and len(I) > 1 and budget > 0:
+        deadline = ctx.__dict__.setdefault('c10_shrink_deadline_i', time.time() + (45 if ctx.tier == 'quick' else 300))
+        while changed and len(I) > 1 and budget > 0 and time.time() <= deadline:
             changed = False
             for k in range(len(I)):
                 J = I[:k] + I[k + 1:]
@@ -694,6 +757,48 @@ def shrink(ctx, res):
             q = [q for q in r['problems'] if q['kind'] == p['kind'] and q['extra'] == p['extra']]
             if q:
                 p['I'], p['text'] = I, q[0]['text']
+
+
+def shrink_history(ctx, res):
+    """Shorten the history of every distinct kind of history problem: drop one operation at a time (operations whose
+    referent disappears are skipped by the executor), the same kind of problem must persist."""
+    seen = set()
+    done = ctx.__dict__.setdefault('c10_shrunk_h', {})
+    for p in list(res['problems']):
+        if not p.get('hist'):
+            continue
+        key = (p['kind'], json.dumps(p['extra'], sort_keys=True))
+        if key in seen or done.get(key, 0) >= 2:
+            continue
+        seen.add(key)
+        done[key] = done.get(key, 0) + 1
+        which, ops = p['hist']['which'], list(p['hist']['ops'])
+        deadline = ctx.__dict__.setdefault('c10_shrink_deadline', time.time() + (30 if ctx.tier == 'quick' else 300))
+        state = {'which': which}
+
+        def still(cand, which=None):
+            if time.time() > deadline:
+                return []
+            r = run_source({'src': res['src'], 'seed': ctx.seed, 'tier': ctx.tier,
+                            'only_history': {'which': which or state['which'], 'ops': cand}})
+            return [q for q in r['problems'] if q.get('hist') and q['kind'] == p['kind'] and q['extra'] == p['extra']]
+        if which.startswith('used') and still(ops, 'fresh'):
+            state['which'] = 'fresh'     # the calls made on the object before the history are not needed
+        at = p['hist'].get('at')
+        if at is not None and at + 1 < len(ops) and still(ops[:at + 1]):
+            ops = ops[:at + 1]
+        budget = 45
+        k = len(ops) - 1
+        while k >= 0 and budget > 0 and len(ops) > 1 and time.time() <= deadline:
+            cand = ops[:k] + ops[k + 1:]
+            budget -= 1
+            if still(cand):
+                ops = cand
+            k -= 1
+        if len(ops) < len(p['hist']['ops']) or state['which'] != which:
+            q = still(ops)
+            if q:
+                p['hist'], p['text'] = q[0]['hist'], q[0]['text']
 
 
 def run(ctx):
@@ -715,6 +820,7 @@ def run(ctx):
     for res in results:
         if res['problems']:
             shrink(ctx, res)
+            shrink_history(ctx, res)
         report(ctx, res)
     cli_cases(ctx, [os.path.join(core.REPO, 'tests', 'data', x) for x in ('g2nd_208.bufr', 'contrived.bufr', '207003.bufr', 'ISMD01_OKPR.bufr')])
     ctx.assumptions = [
@@ -741,6 +847,10 @@ def replay(ctx, path):
     if 'cli' in rp:
         cli_cases(ctx, [os.path.join(core.REPO, rp['cli'])])
         return
-    res = run_source({'src': rp['src'], 'seed': body.get('seed', 0), 'tier': 'quick', 'only': rp['I']})
+    if rp.get('history'):
+        res = run_source({'src': rp['src'], 'seed': body.get('seed', 0), 'tier': body.get('tier', 'quick'),
+                          'only_history': {'which': rp['history']['which'], 'ops': rp['history']['ops']}})
+    else:
+        res = run_source({'src': rp['src'], 'seed': body.get('seed', 0), 'tier': 'quick', 'only': rp['I']})
     report(ctx, res)
     print(json.dumps({'n': res.get('n'), 'cases': res['cases'], 'problems': [p['text'] for p in res['problems']]})[:2000])
